@@ -44,7 +44,7 @@ GRIDS = {
     "g8": dict(T_MIN=0, NT=3, DT=500, DT_SAMPLE=500, P_MIN=20, DELTA_P=-0.5, DELTA_P_SAMPLE=-0.5, NTV=33),      # a pressure grid running downwards
     "g7": dict(T_MIN=1273.15, NT=3, DT=250, DT_SAMPLE=250, P_MIN=0.25, DELTA_P=1.5, DELTA_P_SAMPLE=1.5, NTV=21),
 }
-SYSTEMS = {"9": "orthorhombic", "13": "monoclinic", "21": None}
+SYSTEMS = {"9": "orthorhombic", "13": "monoclinic", "21": None, "cubic-inconsistent": "cubic"}
 
 
 def parse_table(path):
@@ -70,11 +70,16 @@ def run_case(case):
     grid = GRIDS[case["grid"]]
     spec = dict(nv=6, nq=2, na=1, lattice="power", system=SYSTEMS[case["ncomp"]], compset="minimal", static="generic",
                 weights="increasing", qha=dict(grid))
+    skw = {}
+    if case["ncomp"] == "cubic-inconsistent":
+        # a table that contradicts the requested system (c22 = c11 + 1.5 GPa), accepted because the residual check is off
+        spec.update(system="cubic", compset="nonzero", symmetry={"ignore_residuals": True})
+        skw["perturb"] = {(2, 2): 1.5}
     base_name = case["base"]
     viol = []
     nfiles = 0
     with K.scratch() as d:
-        ds, st = synth.write(d, spec)
+        ds, st = synth.write(d, spec, **skw)
         with open(os.path.join(repo_root(), "cij", "data", "output", "writer_rules.yml")) as fp:
             rules = yaml.safe_load(fp)
         try:
@@ -274,6 +279,72 @@ def run_settings_route(case):
     return {"viol": viol, "nontrivial": True, "outcome": f"settings-route-ok/{len(got)}files" if not viol else viol[0]["sig"], "files": len(got)}
 
 
+CUSTOM_RULES = [
+    {"keywords": ["bm_V", "my_K"], "fname_pattern": "bm_V_{base}_kbar.txt", "var_type": "value", "unit_internal": "rydberg / bohr ^ 3",
+     "unit": "kbar", "prop": "bulk_modulus_voigt", "description": "user rule re-using a packaged keyword, other unit and file name"},
+    {"keywords": ["my_G"], "fname_pattern": "my_G_{base}.txt", "var_type": "value", "unit_internal": "rydberg / bohr ^ 3",
+     "unit": "GPa", "prop": "shear_modulus_voigt", "description": "user rule with a new keyword"},
+]
+WRITER_WRITES = [["S", "bm_V"], ["C", "bm_V"], ["S", "B_V"], ["C", "my_G"], ["S", "G_V"], ["C", "my_K"], ["C", "vs"], ["S", "my_G"]]
+
+
+def run_writers(case):
+    """mode B over writer OBJECTS: a writer with the packaged rules (S) and one with user rules (C) that re-use the keyword
+    bm_V are created in the given order and kept alive; each write must follow the rules of the writer it is sent to"""
+    from cij.core.calculator import Calculator
+    from cij.io.output.results_writer import ResultsWriter
+    spec = dict(nv=6, nq=2, na=1, lattice="power", system="orthorhombic", compset="minimal", static="generic",
+                weights="increasing", qha=dict(GRIDS["g0"]))
+    viol = []
+    with K.scratch() as d:
+        synth.write(d, spec)
+        try:
+            c = Calculator(os.path.join(d, "settings.yaml"))
+        except Exception as ex:
+            return {"viol": [V(f"c15:calculator-raises:{type(ex).__name__}", K.fmt_exc(ex))], "outcome": "raises"}
+        base = c.pressure_base
+        import copy
+        writers = {}
+        for name in case["create"]:
+            writers[name] = ResultsWriter(base) if name.startswith("S") else ResultsWriter(base, rules=copy.deepcopy(CUSTOM_RULES))
+        expect = {("S", "bm_V"): ("bm_V_tp_gpa.txt", "bulk_modulus_voigt", GPA_PER_AU), ("S", "B_V"): ("bm_V_tp_gpa.txt", "bulk_modulus_voigt", GPA_PER_AU),
+                  ("S", "G_V"): ("G_V_tp_gpa.txt", "shear_modulus_voigt", GPA_PER_AU), ("C", "bm_V"): ("bm_V_tp_kbar.txt", "bulk_modulus_voigt", 10.0 * GPA_PER_AU),
+                  ("C", "my_K"): ("bm_V_tp_kbar.txt", "bulk_modulus_voigt", 10.0 * GPA_PER_AU), ("C", "my_G"): ("my_G_tp.txt", "shear_modulus_voigt", GPA_PER_AU),
+                  ("C", "vs"): None, ("S", "my_G"): None}     # None: the keyword is unknown to that writer
+        for n, (w, kw) in enumerate(case["writes"]):
+            out = os.path.join(d, f"w{n}")
+            os.makedirs(out)
+            target = writers.get(w) or writers.get(w + "2")
+            with K.chdir(out):
+                exp = expect[(w, kw)]
+                try:
+                    target.write(kw)
+                    if exp is None:
+                        viol.append(V("c15:writers:foreign-keyword-accepted", f"created {case['create']}, write #{n} {kw!r} on writer {w}: a keyword of ANOTHER writer's rules was accepted; files {sorted(os.listdir('.'))}"))
+                        continue
+                except KeyError as ex:
+                    if exp is not None:
+                        viol.append(V("c15:writers:own-keyword-unknown", f"created {case['create']}, write #{n} {kw!r} on writer {w}: KeyError {ex}"))
+                    continue
+                except Exception as ex:
+                    viol.append(V(f"c15:writers:raises:{type(ex).__name__}", f"created {case['create']}, write #{n} {kw!r} on writer {w}: {K.fmt_exc(ex)}"))
+                    continue
+                fn, prop, factor = exp
+                got = sorted(os.listdir("."))
+                if got != [fn]:
+                    viol.append(V("c15:writers:file-name", f"created {case['create']}, write #{n} {kw!r} on writer {w}: wrote {got}, its own rule names {fn}"))
+                    continue
+                try:
+                    vals = parse_table(fn)[3]
+                except Exception as ex:
+                    viol.append(V("c15:writers:unparseable", f"{fn}: {ex!r}"))
+                    continue
+                ref = numpy.asarray(getattr(base, prop), float)[:GRIDS["g0"]["NT"], :] * factor
+                if vals.shape != ref.shape or not numpy.all(numpy.abs(vals - ref) <= 1e-7 * numpy.abs(ref)):
+                    viol.append(V("c15:writers:values", f"created {case['create']}, write #{n} {kw!r} on writer {w}: {fn} holds {vals.ravel()[:2].tolist()}, expected {ref.ravel()[:2].tolist()} (unit of that writer's rule)"))
+    return {"viol": viol, "nontrivial": len(case["writes"]) > 0, "outcome": "writers-ok" if not viol else viol[0]["sig"]}
+
+
 SEQ_ALPHABET = ["bm_V", "B_V", {"keyword": "bm_V", "unit": "kbar", "fname": "bm_V_kbar.txt"}, {"keyword": "bulk_modulus_voigt", "fname": "copy_of_bm_V.txt"},
                 "cij", "cij_s", "cij_t", {"keyword": "cij", "unit": "kbar"}, "vs", {"keyword": "v_s", "unit": "m/s", "fname": "vs_m_s.txt"}]
 
@@ -348,17 +419,21 @@ def run_sequence(case):
 
 
 def explore(ctx):
-    ctx.rule = ("complete product: 9 grids (one with a descending pressure grid) (incl. T_MIN>0, fractional DT, fractional T_MIN with integral DT, P_MIN<0, DT_SAMPLE != DT, DELTA_P_SAMPLE != DELTA_P) x 3 component sets (9/13/21) x "
+    ctx.rule = ("complete product: 9 grids (one with a descending pressure grid) (incl. T_MIN>0, fractional DT, fractional T_MIN with integral DT, P_MIN<0, DT_SAMPLE != DT, DELTA_P_SAMPLE != DELTA_P) x 3 component sets (9/13/21) + a cubic table contradicting its system with the residual check switched off x "
                 "2 bases; for each: every keyword and alias of the writer rules (read at run time, expectations transcribed from the "
                 "documented table) written through ResultsWriter into its own directory and re-read by an independent parser; unit and "
-                "file-name overrides; write_output() with a mixed output section; every documented keyword and alias requested through the settings file's output section in 4 forms (string, mapping, +unit, +fname) and rule by rule; all ordered sequences of <=2 (<=3 thorough) requests from a "
+                "file-name overrides; write_output() with a mixed output section; writer OBJECTS with packaged and with user rules (re-using a packaged keyword) created in 4 orders and kept alive, all sequences of <=2 writes over 8 (writer, keyword) letters; every documented keyword and alias requested through the settings file's output section in 4 forms (string, mapping, +unit, +fname) and rule by rule; all ordered sequences of <=2 (<=3 thorough) requests from a "
                 "10-letter alphabet (keywords, aliases, unit/file-name overrides of 3 rules) through ONE writer: every request leaves its file "
                 "with the content of the last request naming it, request objects unchanged, also after the same objects were first written on the other base; non-trivial = more than 5 files checked / sequence longer than 1")
     ctx.assumptions = ["expected names/units transcribed from docs/usage/output.rst as rendered from the pinned writer_rules.yml", "CODATA unit factors from scipy.constants",
                        "file-name override asserted only for single-table keywords (for c_ij keywords one name cannot serve several components)"]
-    cases = [{"grid": g, "ncomp": n, "base": b} for g in GRIDS for n in SYSTEMS for b in ("tp", "tv")]
+    cases = [{"grid": g, "ncomp": n, "base": b} for g in GRIDS for n in SYSTEMS for b in ("tp", "tv") if n != "cubic-inconsistent" or g in ("g0", "g3")]
     res = ctx.run(MOD, "run_case", cases, part="writer", chunksize=1)
     ctx.run_under(MOD, "run_case", cases[:2], ("-O",))
+    import itertools
+    wcases = [{"create": cr, "writes": [list(w) for w in ws]} for cr in (["S", "C"], ["C", "S"], ["S", "C", "S2"], ["C", "S", "C2"])
+              for L in (1, 2) for ws in itertools.product(WRITER_WRITES, repeat=L)]
+    res += ctx.run(MOD, "run_writers", wcases, part="writer-objects", chunksize=8, transitions=sum(len(c["writes"]) + len(c["create"]) for c in wcases))
     canons = sorted({v[3] for v in DOC.values()})
     res += ctx.run(MOD, "run_settings_route", [{"form": f} for f in ("string", "mapping", "mapping+unit", "mapping+fname")] +
                    [{"form": "string", "only": cn} for cn in canons], part="settings-route", chunksize=1)
